@@ -70,9 +70,9 @@ PROPS["C16"] = dict(level="exploration", steps=simple("^TestC16"), assumptions=T
 def c14_steps(tier):
     th = tier == "thorough"
     return [
-        dict(run="^TestC14Blocks", variant="default", shards=(8 if th else 1)),
-        dict(run="^TestC14Frames", variant="bubble", shards=(6 if th else 1)),
-        dict(run="^TestC14Frames", variant="bubble", shards=(2 if th else 1), env={"GOMAXPROCS": "1", "VERIF_C14_SCALE": "40"}),
+        dict(run="^TestC14(Blocks|LongHistory)", variant="default", shards=(8 if th else 1)),
+        dict(run="^TestC14Frames", variant="bubble", shards=(6 if th else 1)),  # also matches TestC14FramesPinned
+        dict(run="^TestC14Frames$", variant="bubble", shards=(2 if th else 1), env={"GOMAXPROCS": "1", "VERIF_C14_SCALE": "40"}),
     ]
 
 
